@@ -56,6 +56,7 @@ fn subscribe_from<const QUEUED: bool, const SENDER_GONE: bool>() {
 }
 
 //@ obligation: C07.2a
+//@ property: C07
 //@ kind: K3
 //@ complete: yes
 //@ functions: spsc::Park::subscribe, spsc::InnerQueue::send, InnerQueue::drop_chan, InnerQueue::try_recv, spsc::Blocker::unpark
@@ -72,6 +73,7 @@ fn c07_2a_spsc_subscribe_nothing_pending() {
 }
 
 //@ obligation: C07.2b
+//@ property: C07
 //@ kind: K3
 //@ complete: yes
 //@ functions: spsc::Park::subscribe
@@ -88,6 +90,7 @@ fn c07_2b_spsc_subscribe_value_raced_ahead() {
 }
 
 //@ obligation: C07.2c
+//@ property: C07
 //@ kind: K3
 //@ complete: yes
 //@ functions: spsc::Park::subscribe, spsc::InnerQueue::drop_chan
@@ -104,6 +107,7 @@ fn c07_2c_spsc_subscribe_sender_drop_raced_ahead() {
 }
 
 //@ obligation: C07.2d
+//@ property: C07
 //@ kind: K2
 //@ complete: yes
 //@ functions: spsc::InnerQueue::try_recv, InnerQueue::send, InnerQueue::drop_chan, InnerQueue::drop_port
@@ -143,6 +147,7 @@ fn is_empty_checks_registration<T>(q: &Queue<T>) -> bool {
 }
 
 //@ obligation: C06.3b
+//@ property: C06
 //@ kind: K3
 //@ complete: yes
 //@ functions: spsc::Park::subscribe
